@@ -67,6 +67,8 @@ def host_module(ctx, case, ref, rng):
         f.write('# module under test: globals that the doctest rebinds\n')
         for n in chosen:
             f.write('%s = "MODULE-GLOBAL:%s"\n' % (n, n))
+        # plain data that happens to carry the name of a __future__ feature: no feature is switched on by it
+        f.write('annotations = {"a": 1}\ndivision = 2\ngenerator_stop = None\n')
         f.write('def host():\n    return 1\n')
     return path, modname, chosen
 
